@@ -266,14 +266,14 @@ def c10():
         ob("c10::input_canonical", "qt", 8, "Input: accepted bytes re-encode identically; unknown feature byte refused", "all 34-byte strings", est=60, unwindset={"memcmp.0": 40}),
     ]
     obs.append(ob("c10::sorted_unique_generic_4", "qt", 8, "VerifySortedAndUnique (the canonical-form rule of every body list; generic over Ord, instantiated with u64): Ok exactly for strictly ascending lists, first offending pair decides SortError / DuplicateError",
-                  "lists of 0..=4 symbolic u64", est=30))
+                  "lists of 4, 2, 1 and 0 symbolic u64", est=30))
     obs.append(ob("c10::sorted_unique_short_ids_3", "qt", 8, "the same rule on the hash-ordered ShortId: accepted exactly when the identity hashes are strictly ascending; a repeated entry is a DuplicateError",
                   "3 symbolic short ids, hashing under the deterministic mixer E4a", est=60, unwindset={"memcmp.0": 40}))
     obs.append(ob("c10::inputs_wire_order_by_version", "qt", 8, "Inputs::write (writer side): two features-and-commit inputs travel as they are at v1/v2 (34 bytes each, order kept) and as their commitments in ascending hash-of-commitment order at v3+ (the order the v3 reader's sorted-and-unique check accepts), whatever their own order was",
                   "2 inputs with symbolic 33-byte commitments and features, either order, versions {1,2,3,1000}; hashing under the deterministic mixer E4a", est=200, loops={"memcmp": 70, "memcpy": 100, "insertion_sort": 4}))
     obs.append(ob("c10::body_inputs_roundtrip_v2_v3", "t", 8, "[thorough-tier ATTEMPT: 660 s / 13 GB not enough] TransactionBody with two features-and-commit inputs decodes from its own encoding at v1/v2 (34-byte inputs) and v3/local (commitments only, re-sorted for the v3 reader); inputs compared by commitment",
                   "2 inputs with symbolic commitments and features, no outputs / kernels, versions {1,2,3,1000}", est=3000, cap_s=3600, loops={"memcmp": 70, "memcpy": 100, "zeroize": 36}))
-    for no, nk, ni, tiers in [(1, 0, 0, "qt"), (0, 1, 0, "qt"), (0, 0, 1, "qt"), (1, 1, 1, "t"), (1, 0, 1, "t")]:
+    for no, nk, ni, tiers in [(1, 0, 0, "x"), (0, 1, 0, "x"), (0, 0, 1, "qt"), (1, 1, 1, "x"), (1, 0, 1, "x")]:
         obs.append(ob("c10c::compact_block_body_roundtrip", tiers, 8, "CompactBlockBody decodes from its own encoding to an equal value at every protocol version: counts written and read in the same order, every list read with its own count",
                       "%d full outputs (empty range proofs) / %d full kernels / %d short ids, contents symbolic, versions {1,2,3,1000}" % (no, nk, ni),
                       env={"VH_NOUT": no, "VH_NK": nk, "VH_NIDS": ni}, tag="_%d_%d_%d" % (no, nk, ni), est=200, loops={"memcmp": 120, "memcpy": 700, "memset": 700, "read_empty_bytes": 18, "copy_from_slice": 700, "extend_desugared": 3, "IteratingReader": 3}, unwindset={}))
@@ -309,7 +309,7 @@ def c12():
         ob("c12::cut_through_err_iff_duplicate_2_2", "qt", 6, "Err(CutThrough) iff a duplicate survives", "2 + 2", est=500, cap_s=750, unwindset={"memcmp.0": 40}, mem_est_gb=13),
         ob("c12::aggregate_two_independent", "x", 6, "[ATTEMPT: did not finish in 3600 s] aggregate([a, b]) of two transactions that do not spend each other: kernels = union, inputs = union, offset = sum of offsets (model scalar group), independent of operand order",
            "two 1-input / 0-output / 1-kernel transactions with symbolic commitments, excesses, fees and offsets", est=900, cap_s=3600, loops={"memcmp": 70, "zeroize": 36, "memcpy": 120}, replay="model", mem_est_gb=14),
-        ob("c12::deaggregate_known_subset_kernel_only", "qt", 6, "deaggregate(mk, [t]) for kernel-only transactions: the remainder holds exactly the kernel that is not t's, nothing else, and its offset is mk's offset minus t's in the (model) scalar group - also when either offset is zero",
+        ob("c12::deaggregate_known_subset_kernel_only", "qt", 3, "deaggregate(mk, [t]) for kernel-only transactions: the remainder holds exactly the kernel that is not t's, nothing else, and its offset is mk's offset minus t's in the (model) scalar group - also when either offset is zero",
            "mk with 2 kernels in either order, t with one of them; symbolic excesses, both offsets any model scalar", est=600, cap_s=660, loops={"memcmp": 70, "zeroize": 36, "memcpy": 120, "insertion_sort": 4}, replay="model", mem_est_gb=12),
         ob("c12::cut_through_3_3", "t", 8, "same", "3 inputs + 3 outputs", est=3000, cap_s=5400, unwindset={"memcmp.0": 40}, mem_est_gb=20),
     ]
@@ -338,7 +338,7 @@ def c01():
                   "1 input / 2 outputs / 2 kernels with symbolic coinbase flags, commitments, fee < 2^40 and fee shift < 16", est=300, loops=L, replay="model", mem_est_gb=8))
     obs.append(ob("c01::header_overage_arithmetic", "qt", 5, "BlockHeader::overage = -REWARD; total_overage = -(height [+1]) * REWARD; consensus::reward = REWARD + fees (saturating); REWARD = 60 grin",
                   "height < 2^27 (the i64 product overflows near 1.5e8 blocks), any fee", est=30, loops=L))
-    for (np_, nn, tiers) in [(1, 1, "qt"), (2, 1, "qt"), (2, 0, "qt"), (1, 2, "t"), (2, 2, "t")]:
+    for (np_, nn, tiers) in [(1, 1, "qt"), (2, 0, "qt"), (2, 1, "t"), (1, 2, "t"), (2, 2, "t")]:
         obs.append(ob("c01::kernel_offset_sum", tiers, 5, "committed::sum_kernel_offsets(positive, negative) (behind Block::block_kernel_offset, aggregate, the running totals) = group sum of the positive scalars minus the negative ones, zero scalars ignored",
                       "%d positive / %d negative offsets, every scalar of the model group (natively: real libsecp256k1)" % (np_, nn),
                       env={"VH_NPOS": np_, "VH_NNEG": nn}, tag="_%d_%d" % (np_, nn), est=60, loops=L))
@@ -346,7 +346,7 @@ def c01():
                   "0 positive / 1 negative offset", env={"VH_NPOS": 0, "VH_NNEG": 1}, tag="_0_1", est=60, loops=L, expect_fail=True))
     for (ni, no, nk, tiers) in [(1, 0, 1, "qt"), (0, 1, 1, "qt"), (1, 1, 2, "qt"), (2, 2, 2, "t")]:
         obs.append(ob("c01::body_validate_consults_oracles", tiers, 5, "TransactionBody::validate == Ok => every kernel signature and every range proof was handed to the verifier and is valid",
-           "%d inputs / %d outputs / %d kernels; symbolic commitments, kernel variants, oracle bits" % (ni, no, nk),
+           "%d inputs / %d outputs / %d kernels; symbolic commitments, output features (plain / coinbase), kernel variants (plain / height-locked / coinbase), oracle bits" % (ni, no, nk),
            env={"VH_NIN": ni, "VH_NOUT": no, "VH_NK": nk}, tag="_%d_%d_%d" % (ni, no, nk), est=200, loops=L, replay="model", mem_est_gb=10))
     # shapes with an empty input or output vector are not registered for this harness: CBMC reports
     # "dereference failure: pointer invalid" inside Vec<Commitment>::retain/as_slice on them (an
@@ -392,7 +392,7 @@ def c14():
     obs = [
         ob("c14::tx_fee_gate_inputs", "qt", 6, "Transaction::{weight, fee, shifted_fee, accept_fee} - the quantities TransactionPool::is_acceptable compares - follow their definitions",
            "1-in/0-out/1-kernel tx, fee < 2^40, shift < 16, base < 2^40", est=60, loops={"memcmp": 70, "zeroize": 36}),
-        ob("c14::add_to_pool_gate_sequencing", "qt", 6, "TransactionPool::add_to_pool (empty pools, one transaction; chain, adapter and standalone validation answer arbitrarily): admitted ONLY IF the shifted fee reaches weight * accept_fee_base, standalone validation as a transaction (weight limit included) ran and accepted, lock height / coinbase maturity / utxo checks were made against the chain and passed, the pool aggregate validated, and an NRD kernel is enabled and past header version 4; stem goes to the stempool only unless the adapter refuses; a refusal leaves the public pool empty and announces nothing; below the fee floor the refusal is LowFeeTransaction before any validation",
+        ob("c14::add_to_pool_gate_sequencing", "qt", 3, "TransactionPool::add_to_pool (empty pools, one transaction; chain, adapter and standalone validation answer arbitrarily): admitted ONLY IF the shifted fee reaches weight * accept_fee_base, standalone validation as a transaction (weight limit included) ran and accepted, lock height / coinbase maturity / utxo checks were made against the chain and passed, the pool aggregate validated, and an NRD kernel is enabled and past header version 4; stem goes to the stempool only unless the adapter refuses; a refusal leaves the public pool empty and announces nothing; below the fee floor the refusal is LowFeeTransaction before any validation",
            "1-in/0-out/1-kernel tx (plain / height-locked / NRD), fee < 2^40, shift < 16, base < 2^40, stem or fluff, every header version, NRD flag, symbolic verdicts of the chain, the adapter and Transaction::validate (tagging stub; the validation itself is C01)", est=400,
            loops={"memcmp": 70, "zeroize": 36, "memcpy": 120}, replay="model", mem_est_gb=12),
         ob("c14::pool_refuses_low_fee", "t", 6, "TransactionPool::add_to_pool refuses (LowFeeTransaction) every tx whose shifted fee is below weight*accept_fee_base; weight / shifted_fee / accept_fee formulas",
@@ -418,12 +418,15 @@ def c19():
            "all 2^88 frame headers x 4 chain types", est=60),
         ob("c19::frame_header_writer_matches_reader", "qt", 6, "every frame header the reader accepts is reproduced byte for byte by MsgHeader::write, and MsgHeader::new stamps the same magic",
            "all 2^88 frame headers x 4 chain types", est=60),
-        ob("c19::message_sequence_under_fragmentation", "qt", 8, "a Ping, a frame of an unknown type and a Pong written by the real writer (Msg::new + write_message) are read back by read_message over an ARBITRARILY fragmenting reader as the identical typed messages; the unknown frame is a bad message whose announced body is skipped (stream stays in step); exactly the written bytes are consumed",
-           "all field values, every unknown type byte, 3 junk bytes, all chain types, protocol versions {1,1000}, every fragmentation (each read returns an arbitrary non-empty prefix)", est=300,
-           loops={"Frag": 18, "read_exact": 18, "default_read_exact": 18, "memcpy": 40, "memcmp": 40, "extend": 40, "write_all": 4}, mem_est_gb=8),
-        ob("c19::read_message_type_mismatch_keeps_stream", "qt", 8, "read_message::<Ping> on a frame with the wrong magic, of another known type, or announcing an empty body: refused after consuming exactly the 11 header bytes",
-           "every magic and type byte, announced length 0, 11 arbitrary following bytes, all chain types, every fragmentation", est=120, loops={"Frag": 24, "read_exact": 24, "default_read_exact": 24, "memcpy": 40, "memcmp": 40}),
-        ob("c19::codec_ping_then_unknown_then_pong", "x", 8, "[ATTEMPT] the streaming Codec (reader of every established connection) decodes a Ping frame, a frame of unknown type and a Pong frame arriving in arbitrary fragments as Ping, Unknown(type), Pong with the written values, consuming exactly the stream",
+        ob("c19::message_sequence_under_fragmentation", "qt", 8, "a Ping, a frame of an unknown type and a Pong written by the real writer (Msg::new + write_message) are read back by read_message over a fragmenting reader as the identical typed messages; the unknown frame is a bad message whose announced body is skipped (stream stays in step); exactly the written bytes are consumed",
+           "all field values, every unknown type byte, 3 junk bytes, Mainnet, protocol version 1; every fragmentation in which at most 2 reads come back short (which reads and how short: symbolic)", est=300, env={"VH_FRAG": 2}, tag="_f2",
+           loops={"Frag": 18, "read_exact": 6, "default_read_exact": 6, "memcpy": 40, "memcmp": 40, "extend": 40, "write_all": 4}, mem_est_gb=8),
+        ob("c19::message_sequence_under_fragmentation", "t", 8, "same, every read may come back short (fully arbitrary fragmentation)",
+           "all field values, every unknown type byte, 3 junk bytes, Mainnet, protocol version 1; EVERY fragmentation", est=2000, cap_s=3600, env={"VH_FRAG": 0}, tag="_fall",
+           loops={"Frag": 18, "read_exact": 18, "default_read_exact": 18, "memcpy": 40, "memcmp": 40, "extend": 40, "write_all": 4}, mem_est_gb=12),
+        ob("c19::read_message_type_mismatch_keeps_stream", "qt", 12, "read_message::<Ping> on a frame with the wrong magic, of another known type, or announcing an empty body: refused after consuming exactly the 11 header bytes",
+           "every magic and type byte, announced length 0, 11 arbitrary following bytes, all chain types, every fragmentation", est=120, env={"VH_FRAG": 0}, loops={"Frag": 24, "read_exact": 24, "default_read_exact": 24, "memcpy": 40, "memcmp": 40}),
+        ob("c19::codec_ping_then_unknown_then_pong", "x", 10, "[ATTEMPT] the streaming Codec (reader of every established connection) decodes a Ping frame, a frame of unknown type and a Pong frame arriving in arbitrary fragments as Ping, Unknown(type), Pong with the written values, consuming exactly the stream",
            "all field values, every unknown type byte, 2 junk bytes, Mainnet, every fragmentation of the 67-byte stream; socket replaced by a fragmenting byte source (E8)", est=1500, cap_s=3600,
            loops={"sock": 18, "read_exact": 18, "default_read_exact": 18, "memcpy": 40, "memcmp": 40, "read_inner": 20, "put": 20}, mem_est_gb=16, replay="model"),
         ob("c19::read_message_wrong_type_refused", "t", 14, "read_message::<Ping> over an 11-byte stream: wrong magic refused, other type => error, never a panic or body allocation beyond the bound",
